@@ -154,6 +154,8 @@ js::Value Plan::to_json() const
     m.set("nthreads_var", Value::I(machine.nthreads_var)).set("thread_limit", Value::I(machine.thread_limit)).set("dyn", Value::Bool(machine.dyn));
     v.set("machine", m);
     v.set("fault_free", Value::Bool(fault_free));
+    if (garbage_differential)
+        v.set("garbage_differential", Value::Bool(true));
     Value arr = Value::Arr();
     for (auto &o : ops)
         arr.push(o.to_json());
@@ -173,6 +175,7 @@ Plan Plan::from_json(const js::Value &v)
         p.machine.dyn = m->getb("dyn");
     }
     p.fault_free = v.getb("fault_free");
+    p.garbage_differential = v.getb("garbage_differential");
     if (const js::Value *arr = v.find("plan"))
         for (auto &o : arr->a)
             p.ops.push_back(Op::from_json(o));
@@ -202,6 +205,12 @@ struct Gen
         static const uint64_t c[] = {1, 1, 2, 3, 4, 5, 7, 8, 9, 12, 16, 17, 33, 40};
         if (allow_zero && r.chance(1, 30))
             return 0;
+        if (r.chance(1, 12))
+        {
+            // wide matrices (the size is reduced accordingly by the caller): thresholds such as 64/128/256 columns
+            static const uint64_t w[] = {63, 64, 65, 100, 127, 128, 129, 130, 200, 255, 256, 257, 300, 513, 1000};
+            return r.pick(w);
+        }
         return r.pick(c);
     }
     uint64_t pick_nphase(unsigned logn)
@@ -322,9 +331,17 @@ struct Gen
         unsigned logn = r.chance(1, 2) ? slot_log : (unsigned)r.range(0, slot_log);
         o.n = (uint64_t)1 << logn;
         o.ncols = pick_ncols(kind != K_EXTEND && kind != K_ROUNDTRIP);
+        // keep wide matrices small in rows so that a run stays cheap
+        while (o.ncols > 40 && logn > 0 && (o.n * o.ncols > (lim.maxlog > 8 ? 131072u : 16384u)))
+        {
+            logn--;
+            o.n = (uint64_t)1 << logn;
+        }
         if (kind == K_EXTEND)
         {
             unsigned logext = logn + (unsigned)std::min<uint64_t>(r.below(4), lim.maxlog > logn ? lim.maxlog - logn : 0);
+            while (o.ncols > 40 && logext > logn && (((uint64_t)1 << logext) * o.ncols > (lim.maxlog > 8 ? 131072u : 16384u)))
+                logext--;
             o.n_ext = (uint64_t)1 << logext;
             o.nphase = pick_nphase(logext);
             o.dst = r.chance(1, 2) ? D_SRC : D_OTHER;
@@ -581,6 +598,7 @@ Plan generate(const std::string &profile, uint64_t seed, const GenLimits &lim)
     else // C12, C18 and anything else: the whole mix
     {
         bool lifetimes = profile == "C18";
+        p.garbage_differential = lifetimes && !p.fault_free;
         int nops = (int)r.range(1, lifetimes ? 5 : 3);
         if (lifetimes && r.chance(1, 3))
             slot_log[0] = (unsigned)r.below(2); // objects for maxDomainSize 1 and 2
